@@ -24,6 +24,47 @@ class HarnessError(Exception):
     """Something went wrong in the machinery itself (never reported as a violation)."""
 
 
+class LibraryRaised(HarnessError):
+    """An exception that the harness did not anticipate came out of library code (the innermost frame that belongs
+    to the library, the harness or the generated program is a library frame).  The generators only produce supported
+    programs and operations, and on the unchanged tree this never happens; every claimed property says what the
+    library returns, so an unexpected raise is reported as a violation (clause library-raised), not as a harness error."""
+
+    def __init__(self, exc_type, text):
+        HarnessError.__init__(self, "library raised %s: %s" % (exc_type, text))
+        self.exc_type = exc_type
+        self.text = text
+
+
+def lib_raised(tb):
+    """True if the innermost library / harness / generated-program frame of the traceback is a library frame."""
+    lib = os.path.join(os.path.abspath(REPO), "twosigma") + os.sep
+    last = None
+    while tb is not None:
+        fn = tb.tb_frame.f_code.co_filename
+        if fn.startswith(lib):
+            last = "lib"
+        elif fn.startswith(VERIF + os.sep):
+            last = "harness"
+        elif fn.startswith("<") or (_SCRATCH_BASE and fn.startswith(_SCRATCH_BASE)) or "/verif-" in fn:
+            last = "program"
+        tb = tb.tb_next
+    return last == "lib"
+
+
+def library_violation(e):
+    return {"violations": [violation("library-raised", {"exc": e.exc_type}, {"traceback": e.text[-1500:]})],
+            "digest": digest_of(["library-raised", e.exc_type]), "nontrivial": True, "stats": {"library_raised": 1}}
+
+
+def safe_execute(mod, case):
+    """mod.execute(case), with an unanticipated exception from library code turned into a violation."""
+    try:
+        return mod.execute(case)
+    except LibraryRaised as e:
+        return library_violation(e)
+
+
 # ----------------------------------------------------------------------------- PRNG
 
 def splitmix64(x):
@@ -108,8 +149,8 @@ def lifetime(fn, timeout=None):
 
             try:
                 fn(emit)
-            except BaseException:  # harness-level failure inside the child
-                emit({"HARNESS": traceback.format_exc()[-3000:]})
+            except BaseException as e:  # failure inside the child that the check did not anticipate
+                emit({"HARNESS": traceback.format_exc()[-3000:], "lib": lib_raised(e.__traceback__), "exc": type(e).__name__})
                 code = 3
         finally:
             os._exit(code)
@@ -144,6 +185,8 @@ def lifetime(fn, timeout=None):
             pass  # a line cut by a crash
     for e in events:
         if isinstance(e, dict) and "HARNESS" in e:
+            if e.get("lib"):
+                raise LibraryRaised(e.get("exc", "?"), e["HARNESS"])
             raise HarnessError("child failed: " + e["HARNESS"])
     if code not in (0, CRASH_CODE):
         raise HarnessError("child exit code %r, events=%r" % (code, events[-3:]))
@@ -210,7 +253,7 @@ def _worker_run(args):
     mod = importlib.import_module(modname)
     t0 = time.monotonic()
     try:
-        res = mod.execute(case)
+        res = safe_execute(mod, case)
         res["wall"] = time.monotonic() - t0
         return {"ok": True, "res": res}
     except HarnessError as e:
@@ -282,7 +325,7 @@ def default_shrink(mod, case, sig, budget_s):
 
     def same(cand_case):
         try:
-            res = mod.execute(cand_case)
+            res = safe_execute(mod, cand_case)
         except Exception:
             return False
         return any(signature(prop, v) == sig for v in res["violations"])
@@ -313,7 +356,7 @@ def write_evidence(prop, ev):
 
 def replay_file(mod, path):
     data = json.load(open(path))
-    res = mod.execute(data["case"])
+    res = safe_execute(mod, data["case"])
     sigs = [signature(mod.PROP, v) for v in res["violations"]]
     return data, res, sigs
 
@@ -455,9 +498,9 @@ def _main_run(mod, a, seed):
             nshr += 1
         else:
             small = case
-        res2 = mod.execute(small)
+        res2 = safe_execute(mod, small)
         if not any(signature(prop, x) == sig for x in res2["violations"]):
-            small, res2 = case, mod.execute(case)
+            small, res2 = case, safe_execute(mod, case)
             if not any(signature(prop, x) == sig for x in res2["violations"]):
                 raise HarnessError("violation %s of case %d did not reproduce on re-execution" % (sig, i))
         name = hashlib.sha256(sig.encode()).hexdigest()[:12] + ".json"
